@@ -88,7 +88,29 @@ OpTable == {
   Op("x.genid", "pkg", {"pkgvars"}, TRUE, "PkgDefault"),    Op("x.newmodels", "pkg", {"pkgvars"}, TRUE, "PkgDefault"),
   \* server.InfoServer (device registry)
   Op("i.add", "pkg", {"info"}, TRUE, "RAdd"),          Op("i.rem", "pkg", {"info"}, TRUE, "RRemove"),
-  Op("i.list", "pkg", {"info"}, FALSE, "RHas")
+  Op("i.list", "pkg", {"info"}, FALSE, "RHas"),
+  \* OPTION VALUES shared between calls: one kit of write/read/resource/router options and request messages is built
+  \* once per program and used by every process on every instance (the way a caller keeps a package-level
+  \* `var onlyCurrent = resource.WithUpdatePaths("current")`).  The library may read an option value and the mask or
+  \* message inside it, never write it.  The tag opt.* in objs says which shared option values the call is given:
+  \* two processes with a common tag share them even on different instances and different types.  ("w" for the
+  \* read-option kinds: the call goes through option values the library must not write.)
+  Op("v.setshared", "val", {"val", "opt.write"}, TRUE, "OptWrite"),    Op("v.resetshared", "val", {"val", "opt.write"}, TRUE, "OptWrite"),
+  Op("v.casshared", "val", {"val", "opt.write"}, TRUE, "OptWrite"),    Op("v.getshared", "val", {"val", "opt.read"}, FALSE, "OptRead"),
+  Op("v.pullshared", "val", {"val", "opt.read"}, FALSE, "OptRead"),
+  Op("c.updshared", "coll", {"coll", "opt.write"}, TRUE, "OptWrite"),  Op("c.resetshared", "coll", {"coll", "opt.write"}, TRUE, "OptWrite"),
+  Op("c.delshared", "coll", {"coll", "opt.write"}, TRUE, "OptWrite"),  Op("c.listshared", "coll", {"coll", "opt.read"}, FALSE, "OptRead"),
+  Op("c.pullshared", "coll", {"coll", "opt.read"}, FALSE, "OptRead"),
+  Op("e.updshared", "el", {"el", "opt.model"}, TRUE, "OptWrite"),      Op("m.updshared", "md", {"md", "opt.model"}, TRUE, "OptWrite"),
+  Op("h.updshared", "hail", {"hail", "opt.model"}, TRUE, "OptWrite"),  Op("k.updshared", "book", {"book", "opt.model"}, TRUE, "OptWrite"),
+  Op("u.updshared", "pub", {"pub", "opt.model"}, TRUE, "OptWrite"),
+  Op("w.callshared", "wrap", {"wrap", "opt.req"}, TRUE, "OptRead"),    Op("w.pullshared", "wrap", {"wrap", "opt.req"}, FALSE, "OptRead"),
+  Op("r.callshared", "rtr", {"rtr", "opt.req"}, TRUE, "OptRead"),
+  \* new objects built from the shared resource / router / model option values by several goroutines at once
+  Op("o.newval", "opt", {"opt.write", "opt.read", "opt.res"}, TRUE, "OptRes"),
+  Op("o.newcoll", "opt", {"opt.write", "opt.read", "opt.res"}, TRUE, "OptRes"),
+  Op("o.newrtr", "opt", {"opt.res", "opt.req"}, TRUE, "OptRes"),
+  Op("o.newmodel", "opt", {"opt.res", "opt.model"}, TRUE, "OptRes")
 }
 \* the "dflt" family: trait models constructed with NO options (package default options only), one type per program
 DefaultModels == { "onoff", "light", "fanspeed", "mode", "enterleave", "airtemp", "airquality", "energy", "occupancy",
@@ -98,16 +120,19 @@ DefaultOps == UNION { { Op("d." \o t \o ".get", "dflt", {"d." \o t}, FALSE, "VGe
                         Op("d." \o t \o ".pull", "dflt", {"d." \o t}, FALSE, "VPull") } : t \in DefaultModels }
 AllOps == OpTable \cup DefaultOps
 
+OptTags == { "opt.write", "opt.read", "opt.model", "opt.req", "opt.res" }
 Kinds == { o.k : o \in AllOps }
 Kind(k) == CHOOSE o \in AllOps : o.k = k
 
-Families == << "val", "coll", "bus", "rtr", "wrap", "grp", "el", "par", "md", "hail", "book", "pub", "mixed", "dflt", "pkg", "dflt" >>
+Families == << "val", "coll", "bus", "rtr", "wrap", "grp", "el", "par", "md", "hail", "book", "pub", "mixed", "dflt", "pkg", "dflt", "opt", "opt" >>
 
 \* the kinds a program of family f is drawn from; "grp" programs mix group executions with direct use of the
 \* objects the members call; "mixed" programs draw from everything
 FamilyKinds(f) ==
   CASE f = "grp"   -> { o.k : o \in { x \in OpTable : x.fam = "grp" } } \cup { "w.upd", "w.get", "w.pull", "v.set", "v.get", "v.pull" }
     [] f = "mixed" -> { o.k : o \in OpTable }
+    \* "opt" programs: every kind that is given shared option values, on Values, Collections, models, wrapped clients
+    [] f = "opt"   -> { o.k : o \in { x \in OpTable : \E t \in x.objs : t \in OptTags } }
     [] OTHER       -> { o.k : o \in { x \in AllOps : x.fam = f } }
 \* a "dflt" program uses one model type
 TypeKinds(t) == { o.k : o \in { x \in DefaultOps : x.objs = {"d." \o t} } }
@@ -127,6 +152,11 @@ ConflictPair(procs, on) ==
 \* package-level defaults hold.
 SharedDefaultPair(procs, on) ==
   \E p, q \in 1..Len(procs) : on[p] # on[q] /\ Meet(procs, p, q)
+\* Two different processes (any instances) are given the same shared option values.
+SharedOptionPair(procs) ==
+  \E p, q \in 1..Len(procs) : p # q /\
+    \E i \in 1..Len(procs[p]), j \in 1..Len(procs[q]) :
+      Kind(procs[p][i]).objs \cap Kind(procs[q][j]).objs \cap OptTags # {}
 \* what a program must exercise to count
 NonVacuous(procs, on, inst) ==
   /\ KnownKinds(procs) /\ Len(on) = Len(procs) /\ \A p \in 1..Len(on) : on[p] \in 1..inst
